@@ -5,6 +5,7 @@ package engine
 
 import (
 	"bytes"
+	"encoding/json"
 	"fmt"
 	"hash/fnv"
 	"math"
@@ -57,6 +58,7 @@ type task struct {
 	restarts int
 	mapCalls map[int32]int
 	prio     int
+	phase    string
 }
 
 // Result is what one world run reports.
@@ -365,6 +367,11 @@ func (v env) Probe(name string)                  { v.e.res.Probes[name]++ }
 func (v env) SetTap(f func(string, any, any))    { v.e.tap = f }
 func (v env) Stdout() string                     { return v.e.stdout.String() }
 func (v env) Instrumented() bool                 { return true }
+func (v env) Phase(name string) {
+	if t := v.e.running; t != nil {
+		t.phase = name
+	}
+}
 
 // ---- scheduler ------------------------------------------------------------------
 
@@ -552,12 +559,12 @@ func (e *Engine) phaseVerdict(prop string, record bool) (fail string) {
 		case t.panicVal != "":
 			fail = "panic"
 			if record {
-				e.viol(prop, "panic:"+panicKey(t.panicVal, t.panicStk), "task %s panicked: %s\n%s", t.name, t.panicVal, trimStack(t.panicStk))
+				e.viol(prop, "panic"+at(t.phase)+":"+panicKey(t.panicVal, t.panicStk), "task %s panicked: %s\n%s", t.name, t.panicVal, trimStack(t.panicStk))
 			}
 		case t.aborted != "":
 			fail = "nontermination"
 			if record {
-				e.viol(prop, "nontermination", "task %s: %s (after %d steps)", t.name, t.aborted, t.steps)
+				e.viol(prop, "nontermination"+at(t.phase), "task %s: %s (after %d steps)", t.name, t.aborted, t.steps)
 			}
 		case t.state != stDone:
 			stuck = append(stuck, e.describe(t))
@@ -581,6 +588,13 @@ func (e *Engine) phaseVerdict(prop string, record bool) (fail string) {
 		}
 	}
 	return fail
+}
+
+func at(phase string) string {
+	if phase == "" {
+		return ""
+	}
+	return "@" + phase
 }
 
 func trimStack(s string) string {
@@ -650,6 +664,14 @@ func Run(t *testing.T, w *world.World, keepLog bool) *Result {
 		}()
 		synctest.Test(t, func(t *testing.T) {
 			e.t0 = time.Now()
+			// the execution's identity includes its workload: hash the world value first
+			wc := *w
+			wc.Expect = nil
+			if js, err := json.Marshal(&wc); err == nil {
+				hw := fnv.New64a()
+				hw.Write(js)
+				e.logf("world %016x", hw.Sum64())
+			}
 			e.bubble()
 			res.SimNs = int64(time.Since(e.t0))
 		})
@@ -732,6 +754,9 @@ func (e *Engine) bubble() {
 		if o != nil {
 			for k, n := range o.Probes {
 				e.res.Probes[k] += n
+			}
+			for k, n := range o.Faults {
+				e.res.Faults[k] += n
 			}
 		}
 	}
